@@ -1,8 +1,13 @@
 """C01 — ordinal files survive write -> parse unchanged (OrdinalInstance.write / parse, parse_metadata).
 
 The extracted model (Model/OrdIO.v: ord_write, ord_parse, tokenize) is the independent reader / writer of the
-documented format.  Three kinds of cases:
-  c01.file       payload = instance;       write / parse_file / parse_str / write again, model on the same data
+documented format.  Kinds of cases:
+  c01.file       payload = instance;       write / re-parse through the four entry points (constructor with path,
+                 parse_file, get_parsed_instance, parse_str; each twice) / write each re-parsed object again /
+                 accessors called and their results spoiled / second write of the same object; model on the same data
+  c01.pair       payload = (A B), two different instances of one extension over the same ids: inside ONE worker call
+                 and per entry point: a malformed file is rejected, A is written + parsed, B is written + parsed, A's
+                 parsed object is looked at and written again (shared state between objects of one process)
   c01.tokenize   payload = text;           re.findall(order_pattern) against the model's state machine
   c01.history    payload = (instance steps); one object: write, then change multiplicities / append_order(_list) /
                  re-parse the last file, write again after every step: each file = model-write of the current fields
@@ -26,7 +31,11 @@ RULE = ("exhaustive: every weak order (ordered partition) of every non-empty sub
         "multiplicities from a small pool (ties in the sort key), Unicode names / metadata incl. '#', ':', '{', ',', "
         "'}', colons with and without blanks ('closed 18:00', 'key: value', 'a :b'), header look-alikes, empty names and "
         "fields; stability blocks (equal multiplicity and equal number of classes in every insertion order); histories "
-        "on one object (set multiplicities / append_order / append_order_list / re-parse, write after every step); "
+        "on one object (set multiplicities / append_order / append_order_list / re-parse through any entry point / "
+        "accessors with spoiled results / recompute_cardinality_param / storage orders decoupled; write after every "
+        "step); pairs of instances of one extension in one process through all four entry points; names not in "
+        "ascending id order, multiplicity keys not in list order, numpy.int64 ids and multiplicities, double blanks / "
+        "tabs / U+00A0 inside values; "
         "tokenizer on well-formed and malformed ballot strings; parse with "
         "autocorrect / header_only on clean and dirty content. non-trivial = a file case with >= 2 ballots and at "
         "least one class of size != 1")
@@ -41,6 +50,9 @@ TRUSTED = ["modelled: OrdinalInstance.write / parse, PrefLibInstance.parse_lines
 ASSUMPTIONS = ["well-formed instance: >= 1 order, non-empty classes, multiplicity keys = orders (duplicate-free), "
                "multiplicities >= 1, metadata / names single-line without outer whitespace (may be empty), distinct "
                "alternative ids, data_type in soc/soi/toc/toi",
+               "an instance whose multiplicity dict lists its keys in another order than the orders list is the same "
+               "instance: the model is asked about the aligned listing (its wf_ord wants the two lists aligned), the "
+               "implementation gets the decoupled one",
                "write(filepath) replaces an empty file_name by the basename of the path (documented); the round trip "
                "is stated for the instance as it is after that step",
                "generated text excludes the ten line-boundary characters, outer whitespace, lone surrogates and "
@@ -616,7 +628,7 @@ def impl_file(c):
         text1 = _read(p1)
         after = dump_instance(inst)
         # (b) re-parse through every entry point, (c) write each re-parsed instance again
-        parsed, rewrites = {}, {}
+        parsed, rewrites, twice = {}, {}, {}
         for entry in ENTRIES:
             try:
                 again = _parse_via(entry, p1, text1, dt)
@@ -626,6 +638,16 @@ def impl_file(c):
                     parsed[entry] = [1, 5, T("not reproducible: " + repr(e)[:80])]
                 continue
             parsed[entry] = [0, dump_instance(again)]
+            # the same file parsed a second time in this process: a fresh, equal object; the first one untouched
+            try:
+                second = dump_instance(_parse_via(entry, p1, text1, dt))
+            except Exception as e:  # noqa
+                second = "raised " + repr(e)[:120]
+            if second != parsed[entry][1]:
+                twice[entry] = "second parse gives %r, first gave %r" % (second, parsed[entry][1])
+            elif dump_instance(again) != parsed[entry][1]:
+                twice[entry] = "the object returned by the first parse changed when the file was parsed again: %r -> %r" % (
+                    parsed[entry][1], dump_instance(again))
             os.makedirs(os.path.join(d, "again_" + entry))
             p2 = os.path.join(d, "again_" + entry, base)
             again.write(p2)
@@ -645,7 +667,7 @@ def impl_file(c):
         _write_raw(p3, U(mtext))
         parsed_model_file = guarded(_parse_file, p3)
         return {"base": base, "text1": T(text1), "after": after, "parsed": parsed, "rewrites": rewrites,
-                "poison_diff": poison_diff, "text_second": T(text_second),
+                "poison_diff": poison_diff, "text_second": T(text_second), "twice": twice,
                 "mtext": mtext, "parsed_model_file": parsed_model_file}
     finally:
         shutil.rmtree(d, ignore_errors=True)
@@ -831,6 +853,9 @@ def judge_file(c, r, mres):
             return "(b) %s: re-parsed instance differs: %r, expected %r" % (nm, p[1], sview)
         if p[1][5] != sview[5]:
             return "(b) %s: orders are not the stable sort by (-multiplicity, -len): %r, expected %r" % (nm, p[1][5], sview[5])
+    for nm in ENTRIES:
+        if r["twice"].get(nm):
+            return "(b) parsing the same file twice through %s: %s" % (nm, r["twice"][nm])
     # (c) byte-identical rewrite
     for nm in ENTRIES:
         if r["rewrites"].get(nm) != r["text1"]:
